@@ -14,7 +14,7 @@ ASSUMPTIONS = [LEVEL_NOTE]
 
 
 def plan(tier):
-    return {"n": 250 if tier == "quick" else 4000, "floor": 60 if tier == "quick" else 1000}
+    return {"n": 250 if tier == "quick" else 1000, "floor": 60 if tier == "quick" else 250}
 
 
 def rule(tier):
